@@ -16,6 +16,33 @@ type plainReader struct{ r io.Reader } // hides Len(): "unknown length"
 
 func (p plainReader) Read(b []byte) (int, error) { return p.r.Read(b) }
 
+// pieceReader hands its data out in short reads of `step` bytes (a network body arriving in segments); with
+// eofWithData the last piece comes together with io.EOF, as io.Reader allows
+type pieceReader struct {
+	data        []byte
+	step        int
+	eofWithData bool
+}
+
+func (p *pieceReader) Read(b []byte) (int, error) {
+	if len(p.data) == 0 {
+		return 0, io.EOF
+	}
+	n := p.step
+	if n > len(p.data) {
+		n = len(p.data)
+	}
+	if n > len(b) {
+		n = len(b)
+	}
+	copy(b, p.data[:n])
+	p.data = p.data[n:]
+	if len(p.data) == 0 && p.eofWithData {
+		return n, io.EOF
+	}
+	return n, nil
+}
+
 var bodyWAFs = map[string]coraza.WAF{}
 
 func bodyWAF(side string, limit, mem int, action string) (coraza.WAF, error) {
@@ -60,7 +87,7 @@ func itStatus(it *types.Interruption) string {
 	return strconv.Itoa(it.Status)
 }
 
-// body <req|resp> <limit> <memlimit> <R|P> <op,op,…>   op = s:<hex> | k:<hex> | u:<hex>
+// body <req|resp> <limit> <memlimit> <R|P> <op,op,…>   op = s:<hex> | k:<hex> | u:<hex> | c:<hex> (short reads) | e:<hex> (short reads, EOF with the last)
 //
 //	=> <intr>/<n>/<err>,… ; runs=<k> var=<field> reader=<field> dataerr=<0|1> intr=<status|->
 func execBody(a []string) string {
@@ -95,6 +122,10 @@ func execBody(a []string) string {
 				it, n, e = tx.ReadRequestBodyFrom(bytes.NewReader(data))
 			case kind == "k":
 				it, n, e = tx.ReadResponseBodyFrom(bytes.NewReader(data))
+			case (kind == "c" || kind == "e") && side == "req":
+				it, n, e = tx.ReadRequestBodyFrom(&pieceReader{data: data, step: 1 + len(data)%3, eofWithData: kind == "e"})
+			case kind == "c" || kind == "e":
+				it, n, e = tx.ReadResponseBodyFrom(&pieceReader{data: data, step: 1 + len(data)%3, eofWithData: kind == "e"})
 			case side == "req":
 				it, n, e = tx.ReadRequestBodyFrom(plainReader{bytes.NewReader(data)})
 			default:
@@ -187,7 +218,7 @@ func init() {
 					}
 				}
 				total += n
-				kind := c.r.Pick("s", "s", "k", "u")
+				kind := c.r.Pick("s", "s", "k", "u", "c", "e")
 				ops = append(ops, kind+":"+gen.Field(string(b)))
 				c.stats.Hit("write:" + kind)
 			}
